@@ -11,6 +11,13 @@ Definition ex_auth (F : addr) (fee max exp : Z) (v : Z) : list entry :=
   [En 9%N (Fn F F_FORWARD (forward_args 2%N fee max exp 5%N F_HIT [AI v] 7%N 9%N)) [];
    En 7%N (Fn F F_FORWARD (user_args 2%N max exp 5%N F_HIT [AI v]))
           [Fn 2%N F_APPROVE (approve_args 7%N F max exp)]].
+Definition ex_auth_g (F : addr) (fee max exp : Z) (fn : N) (args : list atom) : list entry :=
+  [En 9%N (Fn F F_FORWARD (forward_args 2%N fee max exp 5%N fn args 7%N 9%N)) [];
+   En 7%N (Fn F F_FORWARD (user_args 2%N max exp 5%N fn args))
+          [Fn 2%N F_APPROVE (approve_args 7%N F max exp)]].
+(* the target, from inside the forwarded call, tries to pull the user's remaining allowance
+   (max - fee = 25, granted to the permissionless forwarder 1) over to address 0 *)
+Definition ex_pull (sw : Z) : list atom := [AA 2%N; AA 1%N; AA 7%N; AA 0%N; AI 25; AI sw].
 Definition ex_mgr (f : N) (tok : addr) : list entry := [En 11%N (Fn 0%N f [VA tok; VA 11%N]) []].
 
 Definition ex_calls : list call :=
@@ -22,7 +29,9 @@ Definition ex_calls : list call :=
     SetTok true 3%N 11%N (ex_mgr F_ENABLE 3%N);
     SetTok false 2%N 11%N (ex_mgr F_DISABLE 2%N);
     Forward Permissioned 2%N 5 10 130 5%N F_HIT [AI 4] 7%N 9%N (ex_auth 0%N 5 10 130 4);
-    Advance 50 ].
+    Advance 50;
+    Forward Permissionless 2%N 5 30 200 5%N F_PULL (ex_pull 1) 7%N 9%N (ex_auth_g 1%N 5 30 200 F_PULL (ex_pull 1));
+    Forward Permissionless 2%N 5 30 200 5%N F_PULL (ex_pull 0) 7%N 9%N (ex_auth_g 1%N 5 30 200 F_PULL (ex_pull 0)) ].
 
 Definition ex_trace : trace := observe_model ex_cfg ex_calls.
 Definition outcomes (t : trace) : list (res Z) := map (fun it : item => snd (fst it)) (snd t).
@@ -57,6 +66,10 @@ Definition bump_bal (k : nat) (d : Z) : obs -> obs :=
 (* allowance cell (owner 0, spender s) of token 0 replaced *)
 Definition put_alw (s : nat) (v : Z * Z) : obs -> obs :=
   set_toks (upd_nth 0 (fun t => TO (ob_total t) (ob_bal t) (upd_nth 0 (upd_nth s (fun _ => v)) (ob_alw t)))).
+
+(* the pull is logged as having gone through *)
+Definition pull_went_through : obs -> obs :=
+  set_logs (upd_nth 0 (fun l => removelast l ++ [(F_PULL, ex_pull 1 ++ [AI 1])])).
 
 Definition drop_user_entry (cl : call) : call :=
   match cl with
